@@ -82,6 +82,60 @@ Definition wild_take (f : option fid) (path : str) : option (value * nat) :=
   | None => let n := seg_len path in Some (firstn n path, n)
   end.
 
+(* the two inner loops of get, parameterised by the recursive search [rec] *)
+Section Loops.
+Variable rec : node -> str -> nat -> gres.
+
+(* the wildcard step on child k (radidict.py:405-436) *)
+Definition wild_res (k : node) (path : str) (i : nat) : gres :=
+  match wild_take (nflt k) path with
+  | Some (v, m) => g_val v (g_hook (nhooks k) (i + m) (rec k (skipn m path) (i + m)))
+  | None => GFail [] [] i
+  end.
+
+(* the wildcard child = last child, if its IDX char is the token; None = there is none *)
+Fixpoint wild_of (path : str) (i : nat) (ks : list node) : option gres :=
+  match ks with
+  | [] => None
+  | k :: ks' =>
+    match ks' with
+    | _ :: _ => wild_of path i ks'
+    | [] => if head_is k TOKEN then Some (wild_res k path i) else None
+    end
+  end.
+
+(* descending into literal child k (radidict.py:445-454) *)
+Definition lit_res (k : node) (path : str) (i : nat) : gres :=
+  if prefixb (nkey k) path then
+    let i' := i + length (nkey k) in
+    g_hook (nhooks k) i' (rec k (skipn (length (nkey k)) path) i')
+  else GFail [] [] i.
+
+(* literal child: first child whose IDX char equals the path char
+   (radidict.py:398-402); on failure the saved look_back entry retries the
+   wildcard child (radidict.py:441-444, 469).
+   [w tt] = the wildcard attempt at this node, evaluated only when needed *)
+Fixpoint lit_of (c0 : N) (path : str) (i : nat) (w : unit -> option gres) (ks : list node) : gres :=
+  match ks with
+  | [] =>                                   (* not found: c = idx[-1] *)
+    match w tt with
+    | Some r => r
+    | None => GFail [] [] i
+    end
+  | k :: ks' =>
+    if head_is k c0 && (negb guard || negb (N.eqb c0 TOKEN)) then
+      match lit_res k path i with
+      | GFound d nm vs hs => GFound d nm vs hs
+      | GFail vs hs j =>                    (* look_back.pop() *)
+        match w tt with
+        | Some r' => r'
+        | None => GFail vs hs j
+        end
+      end
+    else lit_of c0 path i w ks'
+  end.
+End Loops.
+
 (* search below node n; [path] = route[i:], results relative to this node *)
 Fixpoint get_at (n : node) (path : str) (i : nat) {struct n} : gres :=
   match n with
@@ -92,54 +146,7 @@ Fixpoint get_at (n : node) (path : str) (i : nat) {struct n} : gres :=
       | Some d => GFound d nm [] []
       | None => GFail [] [] i
       end
-    | c0 :: _ =>
-      (* the wildcard child = last child, if its IDX char is the token
-         (radidict.py:405-436); None = there is none *)
-      let wild :=
-        fix wild (ks : list node) : option gres :=
-          match ks with
-          | [] => None
-          | k :: ks' =>
-            match ks' with
-            | _ :: _ => wild ks'
-            | [] =>
-              if head_is k TOKEN then
-                match wild_take (nflt k) path with
-                | Some (v, m) =>
-                  Some (g_val v (g_hook (nhooks k) (i + m) (get_at k (skipn m path) (i + m))))
-                | None => Some (GFail [] [] i)
-                end
-              else None
-            end
-          end in
-      (* literal child: first child whose IDX char equals the path char
-         (radidict.py:398-402, 441-454) *)
-      let lit :=
-        fix lit (ks : list node) : gres :=
-          match ks with
-          | [] =>                               (* not found: c = idx[-1] *)
-            match wild kids with
-            | Some r => r
-            | None => GFail [] [] i
-            end
-          | k :: ks' =>
-            if head_is k c0 && (negb guard || negb (N.eqb c0 TOKEN)) then
-              let r :=
-                if prefixb (nkey k) path then
-                  let i' := i + length (nkey k) in
-                  g_hook (nhooks k) i' (get_at k (skipn (length (nkey k)) path) i')
-                else GFail [] [] i in
-              match r with
-              | GFound _ _ _ _ => r
-              | GFail _ _ _ =>                  (* look_back.pop(), radidict.py:469 *)
-                match wild kids with
-                | Some r' => r'
-                | None => r
-                end
-              end
-            else lit ks'
-          end in
-      lit kids
+    | c0 :: _ => lit_of get_at c0 path i (fun _ => wild_of get_at path i kids) kids
     end
   end.
 
@@ -171,27 +178,34 @@ Definition filter_check (flts : list (option fid)) (pidx : nat) (k : node) : opt
               end
   end.
 
+Section MatchLoop.
+Variable rec : node -> str -> nat -> mres.
+Variable flts : list (option fid).
+
+(* the child whose IDX char equals the route char (radidict.py:277-300) *)
+Definition tm_kid (k : node) (route : str) (pidx : nat) : mres :=
+  if prefixb (nkey k) route then
+    if str_eqb (nkey k) tok then
+      match filter_check flts pidx k with
+      | Some m => MMis m
+      | None => rec k (skipn 1 route) (S pidx)
+      end
+    else rec k (skipn (length (nkey k)) route) pidx
+  else MMis MPartial.
+
+Fixpoint tm_go (c0 : N) (route : str) (pidx : nat) (ks : list node) : mres :=
+  match ks with
+  | [] => MMis MWhole
+  | k :: ks' => if head_is k c0 then tm_kid k route pidx else tm_go c0 route pidx ks'
+  end.
+End MatchLoop.
+
 Fixpoint tmatch (n : node) (route : str) (flts : list (option fid)) (pidx : nat) {struct n} : mres :=
   match n with
   | Node _ _ _ _ _ kids =>
     match route with
     | [] => MExact n
-    | c0 :: _ =>
-      (fix go (ks : list node) : mres :=
-         match ks with
-         | [] => MMis MWhole
-         | k :: ks' =>
-           if head_is k c0 then
-             if prefixb (nkey k) route then
-               if str_eqb (nkey k) tok then
-                 match filter_check flts pidx k with
-                 | Some m => MMis m
-                 | None => tmatch k (skipn 1 route) flts (S pidx)
-                 end
-               else tmatch k (skipn (length (nkey k)) route) flts pidx
-             else MMis MPartial
-           else go ks'
-         end) kids
+    | c0 :: _ => tm_go (fun k r p => tmatch k r flts p) flts c0 route pidx kids
     end
   end.
 
@@ -304,6 +318,68 @@ Fixpoint upto_tok (s : str) : str :=
 Definition set_key (n : node) (k : str) : node :=
   match n with Node _ d nm f h ks => Node k d nm f h ks end.
 
+(* the child k that _match stepped into (its IDX char equals the route char);
+   ks' = its right siblings; rec = the same edit one level down *)
+Section SetLoop.
+Variable rec : node -> str -> nat -> sres.
+Variables (flts : list (option fid)) (it : item) (nm : list str).
+
+Definition set_kid (k : node) (route : str) (pidx : nat) : node + serr :=
+  if prefixb (nkey k) route then
+    let sub :=
+      if str_eqb (nkey k) tok then
+        match filter_check flts pidx k with
+        | Some MFilter => SErr EFilter
+        | Some _ => SErr EIndex
+        | None => rec k (skipn 1 route) (S pidx)
+        end
+      else rec k (skipn (length (nkey k)) route) pidx in
+    match sub with
+    | SOk k' => inl k'
+    | SErr e => inr e
+    end
+  else
+    (* PARTIAL (radidict.py:224-229) + _split (radidict.py:108) *)
+    let si := cpl (nkey k) (upto_tok route) in
+    let key_rest := skipn si (nkey k) in
+    match key_rest with
+    | [] => inr ESplit
+    | _ :: _ =>
+      let old := set_key k key_rest in
+      let rest := skipn si route in
+      match rest with
+      | [] =>
+        match apply_item (Node (firstn si (nkey k)) None [] None None [old]) it nm with
+        | SOk p => inl p
+        | SErr e => inr e
+        end
+      | _ :: _ =>
+        match make_route [old] rest (skipn pidx flts) it nm with
+        | inl pk => inl (Node (firstn si (nkey k)) None [] None None pk)
+        | inr e => inr e
+        end
+      end
+    end.
+
+(* None = no child under c0 (WHOLE at this node) *)
+Fixpoint set_go (c0 : N) (route : str) (pidx : nat) (ks : list node) : option (list node + serr) :=
+  match ks with
+  | [] => None
+  | k :: ks' =>
+    if head_is k c0 then
+      match set_kid k route pidx with
+      | inl k' => Some (inl (k' :: ks'))
+      | inr e => Some (inr e)
+      end
+    else
+      match set_go c0 route pidx ks' with
+      | None => None
+      | Some (inl ks'') => Some (inl (k :: ks''))
+      | Some (inr e) => Some (inr e)
+      end
+  end.
+End SetLoop.
+
 Fixpoint set_at (n : node) (route : str) (flts : list (option fid)) (pidx : nat)
          (it : item) (nm : list str) {struct n} : sres :=
   match n with
@@ -311,56 +387,7 @@ Fixpoint set_at (n : node) (route : str) (flts : list (option fid)) (pidx : nat)
     match route with
     | [] => apply_item n it nm
     | c0 :: _ =>
-      (* None = no child under c0 (WHOLE at this node) *)
-      let go :=
-        fix go (ks : list node) : option (list node + serr) :=
-          match ks with
-          | [] => None
-          | k :: ks' =>
-            if head_is k c0 then
-              if prefixb (nkey k) route then
-                let sub :=
-                  if str_eqb (nkey k) tok then
-                    match filter_check flts pidx k with
-                    | Some MFilter => SErr EFilter
-                    | Some _ => SErr EIndex
-                    | None => set_at k (skipn 1 route) flts (S pidx) it nm
-                    end
-                  else set_at k (skipn (length (nkey k)) route) flts pidx it nm in
-                match sub with
-                | SOk k' => Some (inl (k' :: ks'))
-                | SErr e => Some (inr e)
-                end
-              else
-                (* PARTIAL (radidict.py:224-229) + _split (radidict.py:108) *)
-                let si := cpl (nkey k) (upto_tok route) in
-                let key_rest := skipn si (nkey k) in
-                match key_rest with
-                | [] => Some (inr ESplit)
-                | _ :: _ =>
-                  let old := set_key k key_rest in
-                  let rest := skipn si route in
-                  match rest with
-                  | [] =>
-                    match apply_item (Node (firstn si (nkey k)) None [] None None [old]) it nm with
-                    | SOk p => Some (inl (p :: ks'))
-                    | SErr e => Some (inr e)
-                    end
-                  | _ :: _ =>
-                    match make_route [old] rest (skipn pidx flts) it nm with
-                    | inl pk => Some (inl (Node (firstn si (nkey k)) None [] None None pk :: ks'))
-                    | inr e => Some (inr e)
-                    end
-                  end
-                end
-            else
-              match go ks' with
-              | None => None
-              | Some (inl ks'') => Some (inl (k :: ks''))
-              | Some (inr e) => Some (inr e)
-              end
-          end in
-      match go kids with
+      match set_go (fun k r p => set_at k r flts p it nm) flts it nm c0 route pidx kids with
       | Some (inl kids') => SOk (Node key d nm0 f h kids')
       | Some (inr e) => SErr e
       | None =>
@@ -425,32 +452,38 @@ Fixpoint del_head (c : N) (ks : list node) : list node :=
   | k :: ks' => if head_is k c then ks' else k :: del_head c ks'
   end.
 
+Section RmLoop.
+Variable rec : node -> str -> rmres.
+Variables wild hooks_only : bool.
+
+(* the child _match stepped into: descend, or (prefix removal, PARTIAL with the
+   key extending the pattern, radidict.py:338-344) it is the target itself *)
+Definition rm_kid (k : node) (route : str) : rmres :=
+  if prefixb (nkey k) route then rec k (skipn (length (nkey k)) route)
+  else if wild && prefixb route (nkey k) then rm_target true hooks_only k
+  else RmNone.
+
+(* result for the child under c0 + the children with that child replaced *)
+Fixpoint rm_go (c0 : N) (route : str) (ks : list node) : option (rmres * (node -> list node)) :=
+  match ks with
+  | [] => None
+  | k :: ks' =>
+    if head_is k c0 then Some (rm_kid k route, fun k' => k' :: ks')
+    else
+      match rm_go c0 route ks' with
+      | None => None
+      | Some (r, rebuild) => Some (r, fun k' => k :: rebuild k')
+      end
+  end.
+End RmLoop.
+
 Fixpoint rm_at (is_root wild hooks_only : bool) (n : node) (route : str) {struct n} : rmres :=
   match n with
   | Node key d nm f h kids =>
     match route with
     | [] => rm_target wild hooks_only n
     | c0 :: _ =>
-      (* result for the child under c0 + the children with that child replaced *)
-      let go :=
-        fix go (ks : list node) : option (rmres * (node -> list node)) :=
-          match ks with
-          | [] => None
-          | k :: ks' =>
-            if head_is k c0 then
-              let r :=
-                if prefixb (nkey k) route then
-                  rm_at false wild hooks_only k (skipn (length (nkey k)) route)
-                else if wild && prefixb route (nkey k) then rm_target true hooks_only k
-                else RmNone in
-              Some (r, fun k' => k' :: ks')
-            else
-              match go ks' with
-              | None => None
-              | Some (r, rebuild) => Some (r, fun k' => k :: rebuild k')
-              end
-          end in
-      match go kids with
+      match rm_go (fun k r => rm_at false wild hooks_only k r) wild hooks_only c0 route kids with
       | None => RmNone
       | Some (RmNone, _) => RmNone
       | Some (RmKeep k', rebuild) => RmKeep (Node key d nm f h (rebuild k'))
@@ -655,23 +688,24 @@ Definition install (hp : hookpair) (h : hid) (partial : bool) : hookpair :=
   if partial then (fst hp, Some h) else (Some h, snd hp).
 
 (* in-place update of the hook list object shared by the node and the index *)
+Section UpdLoop.
+Variable rec : node -> str -> node.
+Fixpoint upd_go (c0 : N) (route : str) (ks : list node) : list node :=
+  match ks with
+  | [] => []
+  | k :: ks' =>
+    if head_is k c0 then
+      (if prefixb (nkey k) route then rec k (skipn (length (nkey k)) route) else k) :: ks'
+    else k :: upd_go c0 route ks'
+  end.
+End UpdLoop.
+
 Fixpoint upd_hooks_at (n : node) (route : str) (hp : hookpair) {struct n} : node :=
   match n with
   | Node key d nm f h kids =>
     match route with
     | [] => Node key d nm f (Some hp) kids
-    | c0 :: _ =>
-      Node key d nm f h
-        ((fix go (ks : list node) : list node :=
-            match ks with
-            | [] => []
-            | k :: ks' =>
-              if head_is k c0 then
-                (if prefixb (nkey k) route
-                 then upd_hooks_at k (skipn (length (nkey k)) route) hp
-                 else k) :: ks'
-              else k :: go ks'
-            end) kids)
+    | c0 :: _ => Node key d nm f h (upd_go (fun k r => upd_hooks_at k r hp) c0 route kids)
     end
   end.
 
@@ -903,6 +937,10 @@ Fixpoint run_cmds (R : router) (cs : list cmd) : list Z :=
   | [] => []
   | c :: cs' => let (R', o) := run_cmd R c in o ++ run_cmds R' cs'
   end.
+
+(* the router state after a script (the probes do not change it) *)
+Definition exec_cmds (R : router) (cs : list cmd) : router :=
+  fold_left (fun R c => fst (run_cmd R c)) cs R.
 
 (* ---- decoding ---- *)
 Definition dec_bool (l : list Z) : option (bool * list Z) :=
